@@ -11,11 +11,12 @@ CONSTANTS MaxMsgs,      \* publishes per behaviour
           MaxPerPub,    \* publishes per publisher
           MaxReads,     \* explicit metadata reads per behaviour
           MaxPauses,    \* PauseStream calls per behaviour
+          MaxRestarts,  \* server restarts per behaviour
           OccSet, BatchSet, PathSet, Kinds, Pols,
           Mut           \* "none" | "after_write" | "newest" | "batch" | "none_paused" | "neg_waives" | "nack_leader_only"
 
-VARIABLES last, nReads, nPauses
-mcvars == <<vars, last, nReads, nPauses>>
+VARIABLES last, nReads, nPauses, nRestarts
+mcvars == <<vars, last, nReads, nPauses, nRestarts>>
 
 SentBy(p) == Cardinality({id \in Ids : msgs[id].p = p})
 
@@ -23,7 +24,7 @@ MCInit ==
   /\ cfg \in [occ : OccSet, batch : BatchSet, path : PathSet]
   /\ msgs = <<>> /\ net = {} /\ chan = <<>> /\ log = <<>> /\ ackq = {}
   /\ clk = 1 /\ known = [p \in Pubs |-> 0] /\ paused = FALSE
-  /\ last = [a |-> "Open"] /\ nReads = 0 /\ nPauses = 0
+  /\ last = [a |-> "Open"] /\ nReads = 0 /\ nPauses = 0 /\ nRestarts = 0
 
 MCSend(p, kind, pol) ==
   /\ Len(msgs) < MaxMsgs /\ SentBy(p) < MaxPerPub
@@ -35,28 +36,37 @@ MCSend(p, kind, pol) ==
   /\ IF Mut = "none_paused" THEN SendAs(p, kind, pol, cfg.occ /\ pol = "none" /\ ~paused)
                             ELSE DoSend(p, kind, pol)
   /\ last' = [a |-> "Send", p |-> p, kind |-> kind, pol |-> pol]
-  /\ UNCHANGED <<nReads, nPauses>>
+  /\ UNCHANGED <<nReads, nPauses, nRestarts>>
+
+\* server restart between two waves (nothing in flight): the metadata is rebuilt
+\* from the Raft log, the stream - with the settings of its latest creation -
+\* and its commit log are reopened; the abstract state does not change
+MCRestart ==
+  /\ nRestarts < MaxRestarts /\ Len(msgs) < MaxMsgs /\ msgs # <<>>
+  /\ net = {} /\ chan = <<>> /\ ackq = {}
+  /\ last' = [a |-> "Restart"] /\ nRestarts' = nRestarts + 1
+  /\ UNCHANGED <<vars, nReads, nPauses>>
 
 \* PauseStream between two waves (everybody has his answers)
 MCPause ==
   /\ nPauses < MaxPauses /\ Len(msgs) < MaxMsgs
   /\ DoPause
-  /\ last' = [a |-> "Pause"] /\ nPauses' = nPauses + 1 /\ UNCHANGED nReads
+  /\ last' = [a |-> "Pause"] /\ nPauses' = nPauses + 1 /\ UNCHANGED <<nReads, nRestarts>>
 
 MCRead(p) ==
   /\ nReads < MaxReads /\ known[p] # Len(log)
   /\ DoRead(p)
-  /\ last' = [a |-> "Read", p |-> p] /\ nReads' = nReads + 1 /\ UNCHANGED nPauses
+  /\ last' = [a |-> "Read", p |-> p] /\ nReads' = nReads + 1 /\ UNCHANGED <<nPauses, nRestarts>>
 
 \* all publishers wait for their answers, then look at the log end
 MCBarrier ==
   /\ Quiescent /\ msgs # <<>> /\ \E p \in Pubs : known[p] # Len(log)
   /\ known' = [p \in Pubs |-> Len(log)]
   /\ last' = [a |-> "Barrier"]
-  /\ UNCHANGED <<cfg, msgs, net, chan, log, ackq, clk, paused, nReads, nPauses>>
+  /\ UNCHANGED <<cfg, msgs, net, chan, log, ackq, clk, paused, nReads, nPauses, nRestarts>>
 
-MCArrive(id) == DoArrive(id) /\ last' = [a |-> "Arrive", id |-> id] /\ UNCHANGED <<nReads, nPauses>>
-MCAck(id) == DoAckDeliver(id) /\ last' = [a |-> "Ack", id |-> id] /\ UNCHANGED <<nReads, nPauses>>
+MCArrive(id) == DoArrive(id) /\ last' = [a |-> "Arrive", id |-> id] /\ UNCHANGED <<nReads, nPauses, nRestarts>>
+MCAck(id) == DoAckDeliver(id) /\ last' = [a |-> "Ack", id |-> id] /\ UNCHANGED <<nReads, nPauses, nRestarts>>
 
 -----------------------------------------------------------------------------
 (* deliberately broken variants of the loop iteration *)
@@ -147,13 +157,14 @@ MCProcess(n) ==
        [] Mut = "nack_leader_only" -> MutNackLeaderOnly(n)
        [] OTHER -> DoProcess(n)
   /\ last' = [a |-> "Process", b |-> SubSeq(chan, 1, n)]
-  /\ UNCHANGED <<nReads, nPauses>>
+  /\ UNCHANGED <<nReads, nPauses, nRestarts>>
 
 MCNext ==
   \/ \E p \in Pubs, kind \in Kinds, pol \in Pols : MCSend(p, kind, pol)
   \/ \E p \in Pubs : MCRead(p)
   \/ MCBarrier
   \/ MCPause
+  \/ MCRestart
   \/ \E id \in net : MCArrive(id)
   \/ \E n \in 1..SetMax(BatchSet) : MCProcess(n)
   \/ \E id \in ackq : MCAck(id)
@@ -167,5 +178,5 @@ StepsOK == [][StepOK]_mcvars
 \* the log only grows (single node, nothing truncates)
 LogGrows == [][Len(log') >= Len(log) /\ SubSeq(log', 1, Len(log)) = log]_mcvars
 
-MCView == <<cfg, msgs, net, chan, log, ackq, clk, known, paused, nReads, nPauses>>
+MCView == <<cfg, msgs, net, chan, log, ackq, clk, known, paused, nReads, nPauses, nRestarts>>
 =============================================================================
